@@ -72,7 +72,7 @@ Proof.
       * apply WF_set_finq. now apply WF_remove_item.
       * cbn [items set_finq set_membytes set_items]. eapply wl_shrink; [apply shrink_remove | exact H].
       * apply resize_words_length.
-  - destruct (lookup ptr (items g)); auto. unfold gc_dealloc.
+  - destruct (lookup ptr (items g)); auto. destruct (dealloc_ok _); auto. unfold gc_dealloc.
     assert (wl_ok (items (unregister run_fin true ptr g))) by (eapply wl_shrink; [apply shrink_unregister, shrink_call_fin | exact H]).
     destruct (ptr =? 0); auto.
   - destruct (lookup ptr (items g)); auto. eapply wl_shrink; [apply shrink_unregister, shrink_call_fin | exact H].
@@ -106,14 +106,17 @@ Qed.
 
 (* growing an item in place keeps every path *)
 Lemma reach_grow its seeds p it n a : lookup p its = Some it -> (length (iwords it) <= nwords n)%nat ->
+  isize it <= n ->
   reach its seeds a -> reach (update p (resize_item n it) its) seeds a.
 Proof.
-  intros L Hn R. induction R as [r a Ir Ia K | a b it0 R IH L0 F Ib K].
+  intros L Hn Hs R. induction R as [r a Ir Ia K | a b it0 R IH L0 F Ib K].
   - eapply reach_seed; eauto. now rewrite keys_update.
   - destruct (Z.eq_dec a p) as [->|N].
     + rewrite L in L0. inversion L0; subst it0.
       eapply (reach_step _ _ p b (resize_item n it)); eauto.
       * apply lookup_update_same. eapply lookup_In_keys; eauto.
+      * unfold noscan in *. cbn [resize_item iflags isize]. apply orb_false_iff in F. destruct F as [F1 F2].
+        rewrite F1. cbn [orb]. destruct SCAN_SIZE_TEST; auto. cbn [andb] in *. lia.
       * cbn [resize_item iwords]. now apply In_resize_grow.
       * now rewrite keys_update.
     + eapply (reach_step _ _ a b it0); eauto.
@@ -160,7 +163,7 @@ Proof.
   assert (HL : (length (iwords itp) <= nwords n)%nat).
   { rewrite (WLK p itp Lp). apply nwords_mono. lia. }
   assert (Ra : reach (items G0) (mark_seeds (p :: stk) G0) a).
-  { subst G0. cbn [items set_membytes set_items]. apply reach_grow; auto.
+  { subst G0. cbn [items set_membytes set_items]. apply reach_grow; auto; [lia|].
     eapply reach_seeds_mono; [|exact R]. unfold mark_seeds. cbn [roots set_membytes set_items].
     intros r x [<-|Ir] Ix.
     - exists (p :: stk). split; [now left | now right].
